@@ -68,7 +68,14 @@ func init() {
 			for c, a := range aggs {
 				defs = append(defs, J{"id": S(c + 1), "def": J{"format": "2", "opts": "", "streams": []any{J{"sid": "7", "agg": S(a)}}}})
 			}
-			prev := J{"stage": "production", "ts": S(w.now - 2_000_000_000), "defs": defs, "va": []any{}, "aggs": []any{}}
+			prevAggs := []any{}
+			if kind == 2 {
+				// the previous outcome already holds (older) timestamped aggregates for every pair
+				for _, a := range aggs {
+					prevAggs = append(prevAggs, J{"sid": "7", "agg": S(a), "v": svJ(&llo.TimestampedStreamValue{ObservedAtNanoseconds: w.now - 5_000_000_000 - uint64(a), StreamValue: llo.ToDecimal(decimal.New(base-int64(a), 0))})})
+				}
+			}
+			prev := J{"stage": "production", "ts": S(w.now - 2_000_000_000), "defs": defs, "va": []any{}, "aggs": prevAggs}
 			g.Emit(J{"op": "llo.outcome", "cfg": w.cfgJ(), "seqNr": 3 + g.R.Intn(5), "prev": prev, "obs": obs, "attestations": []any{}, "honest": honest},
 				"shared-stream", fmt.Sprintf("kind=%d", kind))
 		}
